@@ -4,6 +4,7 @@ use crate::common::{Cfg, Slot, V};
 use crate::engine::{monotone_index, Acc, Ctx, Prop, Verdict, Worker};
 use crate::lines::{Class, Line, NumLit, Tok};
 use crate::vocab::vocab;
+use crate::c11::TimeLit;
 use proptest::prelude::*;
 use serde::{Deserialize, Serialize};
 
@@ -47,6 +48,95 @@ pub enum Shape {
     Dates(crate::c09::Case),
     /// a line without language-dependent words: the same text in every language
     WordFree(crate::mixed::GenLine),
+    /// values held in names (of one or several words) by earlier lines and used side by side on the last line
+    Program(Prog),
+}
+
+/// names of one and of several words; none is a word of either language
+pub const PROG_NAMES: [&str; 8] = ["kalkış", "varış", "ilk tarih", "son tarih", "vardiya başı", "vardiya sonu", "alpha mark", "omega mark"];
+
+#[derive(Clone, Debug, Serialize, Deserialize)]
+pub enum Prog {
+    /// durations held in names, the names written in a row: their sum (`a b c` = `a + b + c`)
+    Row(Vec<(u8, Vec<crate::c10::Part>)>),
+    /// two dates held in names: `A to B` <-> `A B arası`
+    DateRange((u8, crate::c09::DateLit), (u8, crate::c09::DateLit)),
+    /// two times held in names: `A to B` <-> `A B arası`
+    TimeRange((u8, TimeLit), (u8, TimeLit)),
+    /// written durations followed by a range of two times: `2 hours 5 minutes 11:30 to 13:45`
+    DurThenRange(Vec<crate::c10::Part>, TimeLit, TimeLit),
+}
+
+fn name_toks(i: u8) -> Vec<Tok> {
+    PROG_NAMES[i as usize % PROG_NAMES.len()].split(' ').map(|w| Tok::word(w, Class::Var)).collect()
+}
+
+fn def_line(name: u8, value: Vec<Tok>) -> Line {
+    let mut l = Line::default();
+    for t in name_toks(name) {
+        l.push(t);
+    }
+    l.push(Tok::op('='));
+    for t in value {
+        l.push(t);
+    }
+    l
+}
+
+fn range_line(a: Vec<Tok>, b: Vec<Tok>, lang: &str, head: Vec<Tok>) -> Line {
+    let mut l = Line::default();
+    for t in head.into_iter().chain(a) {
+        l.push(t);
+    }
+    if lang == "tr" {
+        for t in b {
+            l.push(t);
+        }
+        l.push(Tok::word("arası", Class::Keyword));
+    } else {
+        l.push(Tok::word("to", Class::Conn));
+        for t in b {
+            l.push(t);
+        }
+    }
+    l
+}
+
+impl Prog {
+    /// the lines of the program in `lang`; `direct`: the reference form of the last line alone, without names
+    /// (`a + b + c`, the range between the literals)
+    pub fn lines(&self, lang: &str, direct: bool) -> Vec<Line> {
+        let parts = |ps: &Vec<crate::c10::Part>| -> Vec<Tok> { ps.iter().flat_map(|p| p.toks(lang)).collect() };
+        match self {
+            Prog::Row(defs) => {
+                let mut out: Vec<Line> = defs.iter().map(|(n, ps)| def_line(*n, parts(ps))).collect();
+                let mut l = Line::default();
+                for (k, (n, _)) in defs.iter().enumerate() {
+                    if direct && k > 0 {
+                        l.push(Tok::op('+'));
+                    }
+                    for t in name_toks(*n) {
+                        l.push(t);
+                    }
+                }
+                out.push(l);
+                out
+            }
+            Prog::DateRange((na, a), (nb, b)) => {
+                if direct {
+                    return vec![range_line(a.toks(lang), b.toks(lang), lang, vec![])];
+                }
+                vec![def_line(*na, a.toks(lang)), def_line(*nb, b.toks(lang)), range_line(name_toks(*na), name_toks(*nb), lang, vec![])]
+            }
+            Prog::TimeRange((na, a), (nb, b)) => {
+                if direct {
+                    return vec![range_line(vec![a.tok()], vec![b.tok()], lang, vec![])];
+                }
+                vec![def_line(*na, vec![a.tok()]), def_line(*nb, vec![b.tok()]), range_line(name_toks(*na), name_toks(*nb), lang, vec![])]
+            }
+            Prog::DurThenRange(ps, a, b) => vec![range_line(vec![a.tok()], vec![b.tok()], lang, parts(ps))],
+        }
+    }
 }
 
 #[derive(Clone, Debug, Serialize, Deserialize)]
@@ -113,6 +203,7 @@ pub fn render(c: &Case, lang: &str) -> Option<String> {
             Some(crate::c09::case_line(&d2).render(",", "."))
         }
         Shape::WordFree(g) => Some(g.text(",", ".")),
+        Shape::Program(p) => Some(p.lines(lang, false).iter().map(|l| l.render(",", ".")).collect::<Vec<_>>().join("\n")),
     }
 }
 
@@ -210,6 +301,34 @@ impl Prop for Languages {
                 break;
             }
         }
+        // a program: the last line gives what the same line gives written without the names (`a + b + c`, the literals)
+        if let (true, Shape::Program(p)) = (acc.ok(), &c.shape) {
+            if !matches!(p, Prog::DurThenRange(..)) {
+                for lang in std::iter::once("en".to_string()).chain(langs.iter().cloned()) {
+                    let lines = p.lines(&lang, true);
+                    let with_names = p.lines(&lang, false);
+                    // `a + b + c` still needs the definitions
+                    let direct_text = if matches!(p, Prog::Row(_)) { with_names[..with_names.len() - 1].iter().chain(lines.last()).map(|l| l.render(",", ".")).collect::<Vec<_>>().join("\n") } else { lines[0].render(",", ".") };
+                    let prog_text = with_names.iter().map(|l| l.render(",", ".")).collect::<Vec<_>>().join("\n");
+                    match (w.eval(&cfg, &lang, &prog_text), w.eval(&cfg, &lang, &direct_text)) {
+                        (Ok(a), Ok(b)) => {
+                            let (x, y) = (a.slots.last().cloned().unwrap_or(Slot::Nothing), b.slots.last().cloned().unwrap_or(Slot::Nothing));
+                            if matches!(y, Slot::Ok { .. }) && !x.same(&y) {
+                                if chrono::Utc::now().date_naive() != today0 {
+                                    return Verdict::skip("date changed during the case", rendered);
+                                }
+                                acc.fail(format!("[{}] the last line of {:?} gives {} but written without the names ({:?}) it gives {}", lang, prog_text, x.brief(), direct_text, y.brief()));
+                                break;
+                            }
+                        }
+                        (Err(pn), _) | (_, Err(pn)) => {
+                            acc.fail(format!("panic at {}: {}", pn.site, pn.message));
+                            break;
+                        }
+                    }
+                }
+            }
+        }
         // the same through ONE session object that is switched between the languages (en, other, en): the
         // language in force decides, not the language the session used before
         let mut session_checked = false;
@@ -256,6 +375,10 @@ impl Prop for Languages {
             Shape::Durations(_) => "duration-words",
             Shape::Dates(_) => "dates-and-day-keywords",
             Shape::WordFree(_) => "word-free",
+            Shape::Program(Prog::Row(_)) => "program:duration-names-in-a-row",
+            Shape::Program(Prog::DateRange(..)) => "program:range-between-date-names",
+            Shape::Program(Prog::TimeRange(..)) => "program:range-between-time-names",
+            Shape::Program(Prog::DurThenRange(..)) => "durations-then-time-range",
         };
         acc.finish(rendered).nt(en_ok && (translated_word || non_number)).class(kind).class_if(translated_word, "has-translated-word").class_if(en_ok, "evaluates-in-english").class_if(session_checked, "also-through-one-session-switched-between-languages").class_if(c.wcase % 3 != 0 && matches!(c.shape, Shape::OpWord(..)), "operator-word-recased")
     }
@@ -290,6 +413,25 @@ pub fn case_strategy() -> impl Strategy<Value = Case> {
         // date shapes valid in every language (no month-first form)
         4 => crate::c09::shape_strategy("tr").prop_map(|shape| Case { shape: Shape::Dates(crate::c09::Case { lang: "tr".into(), shape, tz: None, seps: 0, glue: false, via_var: false }), wcase: 0 }),
         4 => word_free.prop_map(|g| Case { shape: Shape::WordFree(g), wcase: 0 }),
+        2 => prog_strategy().prop_map(|p| Case { shape: Shape::Program(p), wcase: 0 }),
+    ]
+}
+
+pub fn prog_strategy() -> impl Strategy<Value = Prog> {
+    let parts = || prop::collection::vec((0u32..=200, 0u8..7, 0u8..2), 1..=2).prop_map(|v| {
+        let mut v: Vec<crate::c10::Part> = v.into_iter().map(|(count, unit, spelling)| crate::c10::Part { count, unit, spelling, group: false }).collect();
+        // descending, distinct units read naturally
+        v.sort_by(|a, b| b.unit.cmp(&a.unit));
+        v.dedup_by_key(|p| p.unit);
+        v
+    });
+    let names = || Just((0..PROG_NAMES.len() as u8).collect::<Vec<u8>>()).prop_shuffle();
+    let time = || crate::c11::time_strategy().prop_map(|t| TimeLit { form: t.form % 2, ..t });
+    prop_oneof![
+        3 => (names(), prop::collection::vec(parts(), 2..=4)).prop_map(|(n, ps)| Prog::Row(ps.into_iter().enumerate().map(|(k, p)| (n[k], p)).collect())),
+        3 => (names(), crate::c09::datelit("tr"), crate::c09::datelit("tr")).prop_map(|(n, a, b)| Prog::DateRange((n[0], a), (n[1], b))),
+        2 => (names(), time(), time()).prop_map(|(n, a, b)| Prog::TimeRange((n[0], a), (n[1], b))),
+        2 => (parts(), time(), time()).prop_map(|(p, a, b)| Prog::DurThenRange(p, a, b)),
     ]
 }
 
